@@ -36,6 +36,10 @@ Lemma putplog_returns_stored_shape_of_invalid_event : c02_putplog_clears_invalid
 Proof. reflexivity. Qed.
 Lemma reencoding_keeps_original_name : c02_reencode_orig_name = true.
 Proof. reflexivity. Qed.
+(* the system-field mask of a row carries "sys.IsActive was assigned" (bit 16, no payload; 35e511a40):
+   written by storeRowSysFields and restored by loadRowSysFields *)
+Lemma mask_carries_the_activation_mark : c02_mask_carries_actmod = true /\ c02_sfm_actmod = 16.
+Proof. split; reflexivity. Qed.
 
 (* ================= A. range reads ================= *)
 
@@ -192,9 +196,8 @@ Qed.
    (nested argument trees of any depth, unlogged argument, creates/updates with emptied fields,
    synced events, invalid and corrupted events with error texts of any length and whatever the
    builder left in their argument objects), and the decoder consumes exactly the encoding.
-   stored_form e = e except that
-   - the activation flags of CUD rows (ICUDRow.IsActivated/IsDeactivated) are not kept (C02-F3);
-   - of an event that is not valid only the error record is kept: argument objects and CUD rows
+   stored_form e = e for a valid event (the rows' "sys.IsActive was assigned" marks included, since
+   35e511a40); of an event that is not valid only the error record is kept: argument objects and CUD rows
      are dropped (since c96e94a78 PutPlog does the same to the object it returns), message and original name are cut to 65535 bytes (C02-F6), the original
      bytes are dropped when the command has an unlogged argument (documented behaviour). *)
 Theorem decode_encode :
@@ -203,11 +206,35 @@ Proof. exact decode_encode_proved. Qed.
 
 (* Headline: an appended event reads back as the object PutPlog returned (and caches), for every
    event shape incl. invalid events with whatever the builder left in their arguments; remaining
-   exclusions: the activation flags of CUD rows (C02-F3) and error texts above 65535 bytes (C02-F6). *)
+   exclusion: error texts above 65535 bytes (C02-F6). *)
 Theorem appended_event_reads_back :
-  forall s e, wf_event s e -> no_actmod e -> short_texts e ->
+  forall s e, wf_event s e -> short_texts e ->
   decode s (enc_event e) = Some (returned_form e).
 Proof. exact (fun s e => returned_object_reads_back_proved c02_putplog_clears_invalid s e putplog_returns_stored_shape_of_invalid_event). Qed.
+
+(* A valid event reads back exactly ... *)
+Theorem valid_event_reads_back_exactly :
+  forall s e, wf_event s e -> stored_valid e = true -> decode s (enc_event e) = Some e.
+Proof. exact valid_event_roundtrip_proved. Qed.
+
+(* ... in particular ICUDRow.IsActivated / IsDeactivated of the update rows of the event read back
+   are those of the appended event (C02-F3, fixed by 35e511a40), and the marks of new rows too. *)
+Theorem activation_flags_read_back :
+  forall s e, wf_event s e -> stored_valid e = true ->
+  exists d, decode s (enc_event e) = Some d /\
+            map activated (e_updates d) = map activated (e_updates e) /\
+            map deactivated (e_updates d) = map deactivated (e_updates e) /\
+            map (fun c => r_mod (c_row c)) (e_creates d) = map (fun c => r_mod (c_row c)) (e_creates e).
+Proof. exact activation_flags_read_back_proved. Qed.
+
+(* Regression record (C02-F3): with the mask as it was written before 35e511a40 every row decodes
+   with its mark cleared - rows written by the old code stay readable, and under the old writer an
+   update that (de)activates a record read back as a plain update. *)
+Theorem activation_flags_lost_refuted :
+  (forall s v r rest, v <> 0 -> wf_row s r -> dec_row s v (enc_row_with mask_of_old r ++ rest) = Some (clear_row r, rest))
+  /\ exists r, wf_row sch_any r /\ activated (mkCud r []) || deactivated (mkCud r []) = true
+               /\ activated (mkCud (clear_row r) []) || deactivated (mkCud (clear_row r) []) = false.
+Proof. exact activation_mark_lost_with_old_mask_proved. Qed.
 
 (* An event decoded from the log and encoded again (PutWlog of an event delivered by a range read)
    gives the bytes it was decoded from. *)
@@ -216,24 +243,20 @@ Theorem reencoding_decoded_event_is_identity :
 Proof. exact (fun s e => reencode_decoded_proved c02_reencode_orig_name s e reencoding_keeps_original_name). Qed.
 
 (* FULL STATEMENT (refuted): forall s e, wf_event s e -> decode s (enc_event e) = Some e.
-   Witnesses: CUD activation flag (C02-F3, open); error text above 65535 bytes (C02-F6, open);
-   arguments of an invalid event as the builder left them - the object PutPlog returned before
-   c96e94a78 (returned_form_with false e = e; C02-F4, fixed). *)
-Theorem codec_roundtrip_refuted :
-  exists s e, wf_event s e /\ decode s (enc_event e) <> Some e.
-Proof. exact codec_roundtrip_refuted_proved. Qed.
-
+   Witnesses: error text above 65535 bytes (C02-F6, open); arguments of an invalid event as the
+   builder left them - the object PutPlog returned before c96e94a78 (returned_form_with false e = e;
+   C02-F4, fixed). *)
 Theorem codec_roundtrip_error_arguments_refuted :
-  exists s e, wf_event s e /\ no_actmod e /\ decode s (enc_event e) <> Some (returned_form_with false e).
+  exists s e, wf_event s e /\ decode s (enc_event e) <> Some (returned_form_with false e).
 Proof. exact error_args_refuted_proved. Qed.
 
 Theorem codec_roundtrip_long_error_text_refuted :
-  exists s e, wf_event s e /\ no_actmod e /\ e_arg e = null_obj /\ e_creates e = [] /\ decode s (enc_event e) <> Some e.
+  exists s e, wf_event s e /\ e_arg e = null_obj /\ e_creates e = [] /\ decode s (enc_event e) <> Some e.
 Proof. exact long_error_refuted_proved. Qed.
 
-(* the hypotheses are exactly what excludes the three witnesses *)
+(* the hypothesis is exactly what excludes the two witnesses *)
 Theorem codec_roundtrip_partial :
-  forall s e, wf_event s e -> no_actmod e -> bare_error e -> decode s (enc_event e) = Some e.
+  forall s e, wf_event s e -> bare_error e -> decode s (enc_event e) = Some e.
 Proof. exact codec_roundtrip_partial_proved. Qed.
 
 (* Regression record (C02-F5, fixed by 796fe6f32): writing the event's own name when re-encoding
@@ -242,10 +265,15 @@ Theorem reencoding_with_own_name_refuted :
   exists e, wf_event sch_any e /\ reencode_with false (stored_form e) <> enc_event (stored_form e).
 Proof. exact reencode_own_name_refuted_proved. Qed.
 
-(* C02-F7 (open): wf_event asks that the original name of an error event parses back
-   (s_name; for the application schema: exactly one dot, name_one_dot = appdef.ParseQName).  The
-   builders accept any QName: an error event whose original name has a second dot is appended
-   successfully and its stored row then fails to decode - with any one-dot name it decodes. *)
+(* loadEventBuildError keeps an original name that ParseQName rejects (3ba98d88a): the application
+   schema sch_any accepts every name, so wf_event asks nothing of it *)
+Lemma unparsable_original_name_is_kept : c02_errname_parse_strict = false /\ forall en, s_name sch_any en = true.
+Proof. split; reflexivity. Qed.
+
+(* Regression record (C02-F7, fixed by 3ba98d88a): with the strict decoder (sch_strict: the name must
+   have exactly one dot, name_one_dot = appdef.ParseQName) an error event whose original name has a
+   second dot - the builders accept any QName - was appended successfully and its stored row then
+   failed to decode; with any one-dot name it decodes. *)
 Theorem error_event_with_unparsable_name_unreadable :
   exists e, e_valid e = false /\ decode sch_strict (enc_event e) = None
             /\ forall en, name_one_dot en = true ->
@@ -288,17 +316,17 @@ Proof. vm_compute. repeat split. Qed.
 
 Definition ex_event : event :=
   mkEvent 300 3 4096 77 12 1000 true 9 2000 true [] [] []
-    (Obj (mkRow 301 200001 0 0 true [1; 2; 3])
-         [Obj (mkRow 302 200002 200001 64 true [4]) [Obj (mkRow 303 200003 200002 65 false []) []]; Obj (mkRow 302 200004 200001 64 true []) []])
-    (Obj (mkRow 304 0 0 0 true [42]) [])
-    [mkCud (mkRow 305 200005 0 0 true [7; 7]) [2; 3] false]
-    [mkCud (mkRow 305 200009 0 0 false []) [1] false].
+    (Obj (mkRow 301 200001 0 0 true [1; 2; 3] false)
+         [Obj (mkRow 302 200002 200001 64 true [4] false) [Obj (mkRow 303 200003 200002 65 false [] true) []]; Obj (mkRow 302 200004 200001 64 true [] false) []])
+    (Obj (mkRow 304 0 0 0 true [42] false) [])
+    [mkCud (mkRow 305 200005 0 0 true [7; 7] true) [2; 3]]
+    [mkCud (mkRow 305 200009 0 0 false [] true) [1]; mkCud (mkRow 305 200010 0 0 true [] true) []].
 Definition ex_invalid : event :=
   mkEvent 1 3 4097 77 13 1000 false 0 0 false [101; 114; 114] [116; 46; 99] [1; 2; 3] null_obj null_obj [] [].
 
 Example codec_nonvacuous :
   decode sch_any (enc_event ex_event) = Some ex_event /\ decode sch_any (enc_event ex_invalid) = Some ex_invalid
-  /\ length (enc_event ex_event) = 216%nat
+  /\ length (enc_event ex_event) = 234%nat
   /\ accepted_prefixes (enc_event ex_event) = [] /\ accepted_prefixes (enc_event ex_invalid) = [].
 Proof. vm_compute. repeat split. Qed.
 
@@ -321,8 +349,11 @@ Print Assumptions decode_encode.
 Print Assumptions appended_event_reads_back.
 Print Assumptions reencoding_decoded_event_is_identity.
 Print Assumptions reencoding_with_own_name_refuted.
-Print Assumptions codec_roundtrip_refuted.
+Print Assumptions valid_event_reads_back_exactly.
+Print Assumptions activation_flags_read_back.
+Print Assumptions activation_flags_lost_refuted.
 Print Assumptions error_event_with_unparsable_name_unreadable.
+Print Assumptions unparsable_original_name_is_kept.
 Print Assumptions codec_roundtrip_error_arguments_refuted.
 Print Assumptions codec_roundtrip_long_error_text_refuted.
 Print Assumptions codec_roundtrip_partial.
